@@ -165,6 +165,60 @@ theorem strncpy_bounded (dst src : Bytes) (size nbytes : Nat) (h1 : 1 ≤ size)
       = .ok (src.take (min nbytes (size - 1)) ++ 0 :: dst.drop (min nbytes (size - 1) + 1)) :=
   qstrncpy_spec dst src size nbytes h1 h2 h3
 
+/-! ### bounded copy with source and destination in one block (overlap is documented) -/
+
+/-- `qstrncpy(buf + d, size, buf + s, nbytes)` for ANY relative position of `d` and `s` (equal,
+    overlapping either way, disjoint): with `n = min nbytes (size-1)`, the block afterwards is
+    the original one except that `[d, d+n)` holds the `n` bytes the ORIGINAL block had at `s` and
+    index `d + n` holds the terminator -/
+theorem strncpy_overlap_eq (buf : Bytes) (d s size nbytes : Nat) (h1 : 1 ≤ size)
+    (h2 : d + size ≤ buf.length) (h3 : s + min nbytes (size - 1) ≤ buf.length) :
+    qstrncpyOv buf d s size nbytes
+      = .ok (buf.take d ++ (buf.drop s).take (min nbytes (size - 1))
+              ++ 0 :: buf.drop (d + min nbytes (size - 1) + 1)) :=
+  qstrncpyOv_spec buf d s size nbytes h1 h2 h3
+
+/-- … read index by index: the block keeps its length, the bytes at `dst` are the original source
+    bytes followed by NUL, and no index outside `[d, d + n]` (a subset of `[d, d + size)`) changes -/
+theorem strncpy_overlap_bounded (buf : Bytes) (d s size nbytes : Nat) (h1 : 1 ≤ size)
+    (h2 : d + size ≤ buf.length) (h3 : s + min nbytes (size - 1) ≤ buf.length) :
+    ∃ b, qstrncpyOv buf d s size nbytes = .ok b ∧ b.length = buf.length ∧
+      (b.drop d).take (min nbytes (size - 1) + 1) = (buf.drop s).take (min nbytes (size - 1)) ++ [0] ∧
+      ∀ i, (i < d ∨ d + min nbytes (size - 1) + 1 ≤ i) → b[i]? = buf[i]? := by
+  have hl : ((buf.drop s).take (min nbytes (size - 1))).length = min nbytes (size - 1) := by
+    simp [List.length_take]; omega
+  have := patched_shape buf ((buf.drop s).take (min nbytes (size - 1))) d (by rw [hl]; omega)
+  rw [hl] at this
+  exact ⟨_, strncpy_overlap_eq buf d s size nbytes h1 h2 h3, this⟩
+
+/-- `qstrcpy(buf + d, size, buf + |pre|)` where the block holds the C string `str` at `|pre|`:
+    `strlen` is taken on the unmodified block, so the bytes at `dst` are the first
+    `min |str| (size-1)` bytes of the ORIGINAL string and a NUL, wherever `dst` lies relative to
+    the source (e.g. the in-place prefix drop `qstrcpy(buf, size, buf + k)`) -/
+theorem strcpy_overlap_eq (pre str post : Bytes) (d size : Nat) (hs : NulFree str) (h1 : 1 ≤ size)
+    (h2 : d + size ≤ (pre ++ str ++ 0 :: post).length) :
+    qstrcpyOv (pre ++ str ++ 0 :: post) d pre.length size
+      = .ok ((pre ++ str ++ 0 :: post).take d ++ boundedCopy size str
+              ++ 0 :: (pre ++ str ++ 0 :: post).drop (d + min str.length (size - 1) + 1)) :=
+  qstrcpyOv_spec pre str post d size hs h1 h2
+
+theorem strcpy_overlap_bounded (pre str post : Bytes) (d size : Nat) (hs : NulFree str)
+    (h1 : 1 ≤ size) (h2 : d + size ≤ (pre ++ str ++ 0 :: post).length) :
+    ∃ b, qstrcpyOv (pre ++ str ++ 0 :: post) d pre.length size = .ok b ∧
+      b.length = (pre ++ str ++ 0 :: post).length ∧
+      (b.drop d).take (min str.length (size - 1) + 1) = boundedCopy size str ++ [0] ∧
+      ∀ i, (i < d ∨ d + min str.length (size - 1) + 1 ≤ i) → b[i]? = (pre ++ str ++ 0 :: post)[i]? := by
+  have hl : (boundedCopy size str).length = min str.length (size - 1) := by
+    simp [boundedCopy, List.length_take, Nat.min_comm]
+  have := patched_shape (pre ++ str ++ 0 :: post) (boundedCopy size str) d (by rw [hl]; omega)
+  rw [hl] at this
+  exact ⟨_, strcpy_overlap_eq pre str post d size hs h1 h2, this⟩
+
+/-- size 0: nothing is read or written -/
+theorem strcpy_overlap_size_zero (buf : Bytes) (d s nbytes : Nat) :
+    qstrcpyOv buf d s 0 = .ok buf ∧ qstrncpyOv buf d s 0 nbytes = .ok buf := by
+  simp [qstrcpyOv, qstrncpyOv]
+
 /-! ### line reader -/
 
 /-- `qstrgets(buf, size, &offset)` with the cursor at the non-empty rest `s` of the text and
